@@ -369,6 +369,24 @@ impl<K: Kt> Session<K> {
         }
     }
 
+    /// after a call on `key` ended in a way that leaves its effect undefined (panic, error, wrong return value): adopt
+    /// the map's own answer for that one key, so that the rest of the map can still be judged. false: no answer.
+    pub fn resync_key(&mut self, key: &[u8]) -> bool {
+        let budget = self.budget;
+        let Some(map) = self.map.as_mut() else { return false };
+        match guarded(budget, || map.get(key)) {
+            Guard::Ok(Ok(Some(v))) => {
+                self.model.insert(key.to_vec(), v);
+                true
+            }
+            Guard::Ok(Ok(None)) => {
+                self.model.remove(key);
+                true
+            }
+            _ => false,
+        }
+    }
+
     pub fn apply(&mut self, at: usize, op: &Op, keys: &[Vec<u8>], mon: &Mon, ctx: &mut Ctx, rng_bits: u64) -> Result<(), Finding> {
         ctx.count(&format!("call.{}", op.kind_name()), 1);
         if op.is_update() {
